@@ -568,10 +568,10 @@ def part_parse(args):
 N_WRITES = 11      # 10 safelink probes + at least one null packet
 
 
-def connect_case(p, world, crtp, uri, exp, shape, dkind, addr, want_sample=False):
+def connect_case(p, world, crtp, uri, exp, shape, dkind, addr, want_sample=False, scan_between=False):
     from cflib.crtp.radiodriver import RadioDriver
     cls = _sig_class('raises', shape, dkind, addr)
-    rp = {'part': 'connect', 'uri': uri}
+    rp = {'part': 'connect', 'uri': uri, 'scan_between': scan_between}
     try:
         RadioDriver.parse_uri(uri)
     except Exception:  # noqa  (reported by the parse part, which covers a superset of these URIs)
@@ -596,8 +596,26 @@ def connect_case(p, world, crtp, uri, exp, shape, dkind, addr, want_sample=False
             bounded('close', link.close)
         return
     seen = world.wait_writes(N_WRITES)
+    skip = (0, 0)
+    if scan_between and seen:
+        # while this link is open another driver object scans for Crazyflies (the dongle is shared and retuned by the
+        # scan): the link's packets after the scan must again be on the URI's setting
+        n1 = len(world.snapshot())
+        try:
+            bounded('scan_interface', RadioDriver().scan_interface, None)
+        except HarnessError:
+            raise
+        except Exception as e:  # noqa
+            p.violation('connect:scan_while_open_raises:' + cls, 'scan_interface() while the link for %r is open raised %s: %s'
+                        % (uri, type(e).__name__, e), rp)
+        n2 = len(world.snapshot())
+        skip = (n1, n2)
+        if not world.wait_writes(n2 + N_WRITES):
+            p.violation('connect:no_transmission_after_scan:' + cls, 'link for %r transmitted only %d packets after another '
+                        'driver had scanned' % (uri, len(world.snapshot()) - n2), rp)
     bounded('close', link.close)
     log = world.snapshot()
+    log = log[:skip[0]] + log[skip[1]:]
     p.case(key=('connect', uri), outcome=(exp[0], exp[2], shape, 0 if addr is None else len(addr)))
     p.add('radio_packets_checked_at_least', min(len(log), N_WRITES))
     if want_sample and log:
@@ -674,7 +692,7 @@ def part_connect(args):
         if ref_parse(uri) != exp:
             raise HarnessError('reference parser disagrees with the generator on %r' % uri)
         connect_case(p, world, crtp, uri, exp, shape_of(ch, rname, addr), dkind, addr,
-                     want_sample=(chunk in (0, 5) and i == chunk + nchunks * 3))
+                     want_sample=(chunk in (0, 5) and i == chunk + nchunks * 3), scan_between=(i % 5 == 2))
     drain_threads()
     return p
 
@@ -1263,7 +1281,8 @@ def run(ck):
     ck.rule = ('grammar product through the real code: %d dongle ids (indices, serials in either case, an all-digit serial) '
                'x channels 0..125 x {250K,1M,2M} x %d address strings (1..10 hex digits, upper/lower/mixed) x 4 shapes '
                '(trailing fields omitted) x %d query strings [quick: queries on the full-length shape only for channels '
-               '0/2/80/125]; a subset of the same URIs through get_link_driver onto a scripted USB dongle; '
+               '0/2/80/125]; a subset of the same URIs through get_link_driver onto a scripted USB dongle (every fifth of them '
+               'with a scan_interface by another driver object while the link is open); '
                'scan_interface for %d addresses x populations (empty, full, 7 residue classes, singles) with '
                'byte-reversed decoys; every sample URI x every driver class x 4 driver lists; %d unknown/malformed URIs '
                'in sequences of open_link calls on one Crazyflie object followed by a valid URI. distinct = distinct '
@@ -1320,7 +1339,8 @@ def replay(ck, data):
         exp = ref_parse(uri)
         m = _RADIO_RE.fullmatch(uri)
         with contextlib.redirect_stdout(io.StringIO()):
-            connect_case(ck, world, crtp, uri, exp, shape_of(m.group(2), m.group(3), m.group(4)), 'replay', m.group(4))
+            connect_case(ck, world, crtp, uri, exp, shape_of(m.group(2), m.group(3), m.group(4)), 'replay', m.group(4),
+                         scan_between=bool(data.get('scan_between')))
         log = world.snapshot()
         print('get_link_driver(%r): %d packets; settings on air %r; URI names %r'
               % (uri, len(log), sorted(set(e[:4] for e in log)), exp[:4]))
